@@ -701,12 +701,17 @@ func genPDoc(r *Rng, big bool) pdocT {
 	sig := 0x401000 + uint64(r.Intn(3)) // shared second frame ("signal handler"), possibly leaf-1 adjacent
 	sig2 := uint64(0x40be31)
 	mode := r.Intn(4)
+	// number of samples WITHOUT the shared second frame: around both sides of len/32 (and len/16, len/64)
+	nonShare := []int{0, n / 32, n/32 + 1, n / 16, n/16 + 1, n / 64}[r.Intn(6)]
 	for i := 0; i < n; i++ {
 		s := psampleT{count: uint64(r.Intn(20))}
 		if r.P(1, 10) {
 			s.count = uint64(PickI(r, []int64{0, 4294967295, 1 << 31}))
 		}
 		m := r.Intn(5)
+		if big && mode >= 1 {
+			m = 1 + r.Intn(4) // every sample can carry the shared frame: the count is controlled by nonShare alone
+		}
 		for j := 0; j < m; j++ {
 			a := genAddr(r)
 			if d.kind < 2 {
@@ -721,7 +726,7 @@ func genPDoc(r *Rng, big bool) pdocT {
 			s.addrs = append(s.addrs, a)
 		}
 		// mode 1: nearly all samples share the second frame; mode 2: two shared frames; mode 3: exactly at the margin
-		if mode >= 1 && len(s.addrs) >= 1 && !(mode == 3 && i < n/32+1) && !(big && i == 0 && r.Bool()) {
+		if mode >= 1 && len(s.addrs) >= 1 && !(big && i < nonShare) && !(!big && mode == 3 && i < 1) {
 			rest := append([]uint64{}, s.addrs[1:]...)
 			s.addrs = append([]uint64{s.addrs[0], sig + 1}, rest...)
 			if mode == 2 {
@@ -848,7 +853,7 @@ func runC14(c *Ctx) {
 		}
 		return 1
 	}
-	n := c.Budget(160, 1500)
+	n := c.Budget(120, 1500)
 	for k := 0; k < n; k++ {
 		// Go count
 		{
